@@ -25,6 +25,7 @@ func (m *Machine) newNondet(tag, kind string, s sym.Sort) *sym.Term {
 	t := sym.Var(m.freshName(tag), s)
 	m.nondets = append(m.nondets, nondetRec{Tag: tag, Kind: kind, T: t})
 	m.sol.Declare(t)
+	m.pin(t, tag, kind)
 	return t
 }
 
@@ -224,8 +225,47 @@ func (e *Engine) intrinsic(name string) stubFn {
 	return nil
 }
 
+// pin constrains a fresh input to the counterexample's value (pinned replay).
+func (m *Machine) pin(t *sym.Term, tag, kind string) {
+	if !m.pinnedOn {
+		return
+	}
+	for m.pinPos < len(m.pinned) && m.pinned[m.pinPos].Tag != tag {
+		m.pinPos++
+	}
+	if m.pinPos >= len(m.pinned) {
+		return
+	}
+	mv := m.pinned[m.pinPos]
+	m.pinPos++
+	val := mv.Val
+	if mv.Raw != "" {
+		val = mv.Raw
+	}
+	var c *sym.Term
+	switch t.Sort.K {
+	case sym.KBool:
+		c = sym.Bool(val == "true")
+	case sym.KStr:
+		c = sym.Str(val)
+	case sym.KBV:
+		if strings.HasPrefix(val, "-") {
+			var x int64
+			fmt.Sscanf(val, "%d", &x)
+			c = sym.BVConst(t.Sort.W, uint64(x))
+		} else {
+			var x uint64
+			fmt.Sscanf(val, "%d", &x)
+			c = sym.BVConst(t.Sort.W, x)
+		}
+	default:
+		return
+	}
+	m.assertPC(sym.Eq(t, c))
+}
+
 func (m *Machine) vrfAssert(c *sym.Term, label string) {
-	if m.pos < len(m.prefix) {
+	if m.pos < len(m.prefix) && !m.pinnedOn {
 		// replaying a prefix: this assertion was already examined by the path that forked us
 		if c.Const && c.U == 0 {
 			m.end(endInfeasible, "stopped after concrete assertion failure")
